@@ -492,3 +492,161 @@ Example C07_example_closerace :
   run_closerace [2; 1; 3; 1; 0] = [4; 1; 1; 200; 3; 0] /\
   run_closerace [3; 2; 0; 0; 1] = [4; 1; 0; 1].
 Proof. vm_compute. repeat split. Qed.
+
+(* ==== third strengthening: Serve / ListenAndServe, the order inside the close callback ========= *)
+From Verif Require Import Gen.GenClose3 Proofs.ChanServeP Proofs.CloseGen3P.
+
+(* Channel.Serve and Channel.ListenAndServe are threads of the channel model (labels LServe /
+   LListenServe start one at ANY point of a run, any number of times; PSrv is the single Lock
+   region of Serve, PLs1 the unlocked test of ListenAndServe that precedes it).  Every theorem
+   above that is stated over [run cstep] / [Reach cstep cinit] -- C07_chan_monotone,
+   C07_chan_signal_once, C07_chan_drain, C07_chan_reaches_closed -- therefore holds for every
+   interleaving WITH Serve calls: before Close, after Close, between the locked region of Close and
+   its loop, between the state read and the update of a callback, repeated. *)
+
+(* What one Serve does: it succeeds exactly on a channel in state Client whose listener is not set
+   (-> Listening, listener set); with the listener set it fails with errAlreadyListening and
+   changes nothing; in every other state it fails with errInvalidStateForOp and leaves the state
+   alone (the listener stays set, as in the code).  Connections and the closed signal are untouched. *)
+Theorem C07_chan_serve_step : forall s arg,
+  exists s' o, ctstep s PSrv arg = Some (s', CDone o) /\
+    conns s' = conns s /\ cstates s' = cstates s /\ g_closed s' = g_closed s /\ g_owed s' = g_owed s /\
+    ((o = oSrvOk /\ chst s = hClient /\ lis s = false /\ chst s' = hListening /\ lis s' = true) \/
+     (o = oSrvInvalid /\ chst s <> hClient /\ lis s = false /\ chst s' = chst s /\ lis s' = true) \/
+     (o = oSrvAlready /\ lis s = true /\ s' = s)).
+Proof. exact chan_serve_step. Qed.
+Print Assumptions C07_chan_serve_step.
+
+Theorem C07_chan_listen_serve_step : forall s arg,
+  ctstep s PLs1 arg = Some (s, if lis s then CDone oSrvAlready else PSrv).
+Proof. exact chan_listen_serve_step. Qed.
+Print Assumptions C07_chan_listen_serve_step.
+
+(* (b) at channel level: once the state has reached StartClose, then along EVERY continuation of
+   the run (Serve, ListenAndServe, further Close calls, connection events, callbacks) it stays at
+   or beyond StartClose; every connection whose handshake completes is refused (not tracked, then
+   closed: no call on it is served), Connect fails locally, and every Serve fails without
+   touching the state or the connections. *)
+Theorem C07_chan_no_service_after_close : forall ls1 ls2 s1 s2,
+  run cstep cinit ls1 = Some s1 -> hSC <= chst (csh s1) -> run cstep s1 ls2 = Some s2 ->
+  hSC <= chst (csh s2) /\
+  (forall c arg, ctstep (csh s2) (PAd1 c) arg = Some (csh s2, PAd2 c)) /\
+  (forall arg, ctstep (csh s2) PConn arg = Some (csh s2, CDone oConnErr)) /\
+  (forall arg, exists s' o, ctstep (csh s2) PSrv arg = Some (s', CDone o) /\
+                            (o = oSrvAlready \/ o = oSrvInvalid) /\ chst s' = chst (csh s2) /\ conns s' = conns (csh s2)).
+Proof. exact chan_no_service_after_close. Qed.
+Print Assumptions C07_chan_no_service_after_close.
+
+(* At most one Serve call ever returns nil (one accept loop), and a listening channel has its
+   listener set (so Close finds it). *)
+Theorem C07_chan_serve_once : forall s, Reach cstep cinit s ->
+  0 <= srv_count s <= 1 /\
+  (srv_count s = 1 -> lis (csh s) = true) /\
+  (chst (csh s) = hListening -> lis (csh s) = true).
+Proof. exact chan_serve_once. Qed.
+Print Assumptions C07_chan_serve_once.
+
+(* Gen/GenClose3.v (regenerated from channel.go on every run): the Lock region of Serve with its
+   two assignments, the listener test of ListenAndServe, removeClosedConn, the part of
+   connectionCloseStateChange between the schedule points enter and afterRead -- accepted by go2v
+   only with ch.removeClosedConn(c) BEFORE chState := ch.State(), the generated state test being the
+   model's PCb3, which the model runs after PCb1 / PCb2 -- and the len(conns) == 0 decision of
+   Channel.Close are the steps PSrv, PLs1, PCb1, PCb2, PCb3 and PCl1 of the model. *)
+Theorem C07_decisions3_generated :
+  (forall s arg,
+     ctstep s PSrv arg =
+       let '(e, l, st) := chanServe (lis s) (chst s) in
+       Some (set_chst (set_lis s l) st, CDone (srv_outcome e))) /\
+  (forall l st,
+     chanServe l st = if l then (1, true, st)
+                      else if st =? c_ChannelClient then (0, true, c_ChannelListening) else (2, true, st)) /\
+  (forall s arg,
+     ctstep s PLs1 arg = Some (s, if chanListenTest (lis s) =? 1 then CDone oSrvAlready else PSrv)) /\
+  (forall s c arg,
+     ctstep s (PCb1 c) arg = Some (s, if chanRemoveTest (cstate s c) =? 1 then PCb2 c else PCb3 c) /\
+     chanRemoveDeletes = 1 /\
+     ctstep s (PCb2 c) arg = Some (set_conns s (remn c (conns s)), PCb3 c)) /\
+  (forall s c arg,
+     ctstep s (PCb3 c) arg =
+       Some (s, if chanCallbackRead (chst s) =? 0 then CDone oCbDone else PCb4 c (chanCallbackRead (chst s)))) /\
+  (forall s arg, chst s <> hCl ->
+     ctstep s PCl1 arg =
+       let '(st, cc) := chanCloseEmpty (zlen (conns s)) (chanCloseState (chst s)) in
+       Some (set_chst s st, PCl2 (if cc then [] else conns s) cc)).
+Proof. exact close3_generated. Qed.
+Print Assumptions C07_decisions3_generated.
+
+(* non-vacuity.  (1) a client channel: connection 0 is added (op 1, thread 0); Close (thread 1)
+   parks after its locked region: StartClose (3), one connection tracked; ListenAndServe (op 10,
+   thread 2) and Serve (op 9, thread 3) are both refused and the state stays 3; outcomes at the end:
+   added (4), Close still before its loop (-1), errInvalidStateForOp (10) -- which set the
+   listener --, errAlreadyListening (9).
+   (2) the forced schedule of the engine: listen; connection 0 added; it closes on its own (2 0 4);
+   its callback (thread 1) runs to chan.removeClosedConn.beforeLock (class 5): Listening (2), one
+   connection tracked; Close (thread 2) runs to its end: StartClose (3), the closed connection
+   still tracked; the callback resumes: removes it, reads StartClose, finds no connection left and
+   closes the channel: Closed (5), nothing tracked, one signal. *)
+Example C07_example_serve :
+  run_chanclose [10; 1;0;0; 6;0;0; 3;0;0; 6;1;2; 8;0;0; 10;0;0; 6;2;0; 9;0;0; 6;3;0; 8;0;0]
+    = [0;  1;  3; 1; 0;  0;  0;  3; 1; 0;   4; 4; -1; 10; 9] /\
+  run_chanclose [14; 0;0;0; 1;0;0; 6;0;0; 2;0;4; 4;0;0; 6;1;32; 8;0;0; 3;0;0; 6;2;2; 7;2;0; 6;2;0; 8;0;0; 6;1;0; 8;0;0]
+    = [0;  5;  2; 1; 0;  1; 1; 0;  3; 1; 0;  0;  5; 0; 1;   3; 4; 3; 1].
+Proof. vm_compute. split; reflexivity. Qed.
+
+Example C07_example_no_service :
+  exists ls1 s1, run cstep cinit ls1 = Some s1 /\ chst (csh s1) = hIC /\ conns (csh s1) = [0%nat] /\ lis (csh s1) = false.
+Proof.
+  exists [LNewConn; LRunC 0 0; LClose; LRunC 1 0; LRunC 1 0; LRunC 1 0; LConnMove 0 3; LCallback 0;
+          LRunC 2 0; LRunC 2 0; LRunC 2 0; LRunC 2 3; LRunC 2 0].
+  eexists. split; [vm_compute; reflexivity|]. vm_compute. repeat split.
+Qed.
+
+(* ---- the two wrong variants of channel.go this pass is about, as refuted clauses -------------- *)
+From Verif Require Import Model.ClosePinned3 Proofs.ClosePinned3P.
+
+(* Model/ClosePinned3.v: [vstep serve_late read_first]; both flags false = the channel model
+   (same runs as [cstep], thread by thread). *)
+Theorem C07_pinned3_flags_false_is_model :
+  (forall ls, run (vstep false false) vinit ls = vembed_opt (run cstep cinit ls)) /\
+  (forall s, Reach cstep cinit s -> Reach (vstep false false) vinit (vembed s)).
+Proof. exact pinned3_false_is_model. Qed.
+Print Assumptions C07_pinned3_flags_false_is_model.
+
+(* serve_late (Serve refuses only a Closed channel): a client channel with an outbound call in
+   flight is closed (InboundClosed); Serve returns nil and the state is Listening again -- (e) is
+   false --, and the next connection that completes its handshake is tracked -- (b) is false. *)
+Theorem C07_chan_monotone_serve_late_refuted : exists s1 s2,
+  run (vstep true false) vinit serve_late_prefix = Some s1 /\
+  run (vstep true false) s1 serve_late_suffix = Some s2 /\
+  chst (vsh s1) = hIC /\ chst (vsh s2) = hListening /\ ~ (chst (vsh s1) <= chst (vsh s2)) /\
+  nth_error (vthr s2) 3 = Some (VN (CDone oSrvOk)) /\
+  nth_error (vthr s2) 4 = Some (VN (CDone oAdded)) /\ conns (vsh s2) = [0%nat; 1%nat].
+Proof. exact chan_monotone_serve_late_refuted. Qed.
+Print Assumptions C07_chan_monotone_serve_late_refuted.
+
+(* read_first (the callback reads the channel state before it removes the closed connection): the
+   connection closes on its own, Close lands between the callback's read and its removal: every
+   hypothesis of C07_chan_reaches_closed holds in the final state, the channel is stuck in
+   StartClose with no connection and no signal -- (d) is false. *)
+Theorem C07_chan_reaches_closed_read_first_refuted : exists s,
+  Reach (vstep false true) vinit s /\
+  hSC <= chst (vsh s) /\
+  (forall c, In c (conns (vsh s)) -> cstate (vsh s) c = kCl) /\
+  g_owed (vsh s) = [] /\
+  (forall n p, nth_error (vthr s) n = Some p -> exists o, p = VN (CDone o)) /\
+  ~ (chst (vsh s) = hCl /\ g_closed (vsh s) = 1) /\
+  chst (vsh s) = hSC /\ conns (vsh s) = [] /\ g_closed (vsh s) = 0.
+Proof. exact chan_reaches_closed_read_first_refuted. Qed.
+Print Assumptions C07_chan_reaches_closed_read_first_refuted.
+
+(* the same two schedules on the model itself: Serve is refused and the connection is not tracked;
+   the callback closes the channel *)
+Example C07_example_witnesses3_model :
+  (exists s2,
+     run (vstep false false) vinit (serve_late_prefix ++ serve_late_suffix) = Some s2 /\
+     chst (vsh s2) = hIC /\ nth_error (vthr s2) 3 = Some (VN (CDone oSrvInvalid)) /\
+     nth_error (vthr s2) 4 = Some (VN (PAd2 1)) /\ conns (vsh s2) = [0%nat]) /\
+  (exists s,
+     run (vstep false false) vinit (read_first_witness ++ [LRunC 1 0; LRunC 1 4; LRunC 1 0; LRunC 1 0]) = Some s /\
+     chst (vsh s) = hCl /\ g_closed (vsh s) = 1 /\ conns (vsh s) = []).
+Proof. exact (conj serve_late_witness_model read_first_witness_model). Qed.
